@@ -31,6 +31,9 @@ TRUSTED = [
     "and centres), Rvectors.reorder (left/right shifts), Rvectors.cRvec_shifted, "
     "Rvectors.derivative (any order); the rotation of a system is the harness helper rotate_system, itself checked "
     "against the model",
+    "modelled as a state machine: the shift bookkeeping of Rvectors (separate left / right shift lists, aliasing, the "
+    "has_shifts_right flag) under histories of double_spin and reorder (theorems shifts_follow_centres, "
+    "flag_guarded_reorder_breaks_after_double_spin; correspondence lines `shist` on the real System_R after the history)",
     "not modelled (oracle only): eigh, R_to_k/FFT, the formulas and calculators, run(); double_spin and the index list "
     "of spin_block2interlace enter the correspondence as prehistory (their own output is the starting state, the model "
     "checks the reorder that follows)",
@@ -143,6 +146,10 @@ def corr(ctx):
         # quantifies over systems, not over freshly constructed ones): an earlier reorder, double_spin (spinless copy),
         # spin_block2interlace in either direction
         pre = []
+        cen0 = cen.copy()
+        uniq = sorted({tuple(r) for r in cen0})
+        labels0 = [uniq.index(tuple(r)) for r in cen0]
+        hist = []                       # the history as the model's operations: d = double_spin, r:<index list>
         for _ in range(rng.choice([0, 0, 1, 1, 2, 3])):
             op = rng.choice(["reorder", "double_spin", "block2interlace", "interlace2block"])
             with quiet():
@@ -151,6 +158,7 @@ def corr(ctx):
                     rng.shuffle(q)
                     s.reorder(q)
                     cen = cen[q]
+                    hist.append("r:" + ints(q))
                 elif op == "double_spin":
                     if getattr(s, "spinor", False) or nw > 4:
                         continue
@@ -158,12 +166,14 @@ def corr(ctx):
                     s.double_spin()
                     cen = np.repeat(cen, 2, axis=0)
                     nw = 2 * nw
+                    hist.append("d")
                 else:
                     if nw % 2:
                         continue
                     back = op == "interlace2block"
                     s.spin_block2interlace(backward=back)
                     cen = cen[spin_mapping(nw, back)]
+                    hist.append("r:" + ints(spin_mapping(nw, back)))
             pre.append(op)
             ctx.count(f"corr.prehistory.{op}")
         p = list(range(nw))
@@ -185,6 +195,14 @@ def corr(ctx):
             if not np.array_equal(s.rvec.iRvec, s2.rvec.iRvec):
                 ctx.fail("reorder changed the list of R vectors", case)
             cen_new = cen[p]
+            # the shift bookkeeping after the WHOLE history (model: runShifts): centre labels of the left shifts, the
+            # right shifts and the centres, function by function
+            def labels_of(rows):
+                return [min(range(len(uniq)), key=lambda g: np.abs(np.asarray(uniq[g]) - r).max()) for r in rows]
+            lines.append(f"shist {ints(labels0)} {'|'.join(hist + ['r:' + ints(p)])}")
+            checks.append(("labels", ";".join(ints(labels_of(a)) for a in (s2.rvec.shifts_left_red, s2.rvec.shifts_right_red,
+                                                                            s2.wannier_centers_red)),
+                           dict(case, what="shift bookkeeping after the history", history=hist + ['r:' + ints(p)])))
             add(f"reorderc {nw} {ints(p)} {ratss([[F(x) for x in r] for r in cen])}", "close",
                 s2.wannier_centers_red, dict(case, what="wannier_centers_red"))
             add(f"reorderc {nw} {ints(p)} {ratss([[F(x) for x in r] for r in cen])}", "close",
@@ -257,6 +275,10 @@ def corr(ctx):
         ctx.case(signature=line, nontrivial=True)
         if o == "bad-op":
             ctx.mismatch("model rejected the line", dict(line=line[:300]))
+            continue
+        if kind == "labels":
+            if o != code:
+                ctx.mismatch("shist: left;right;centre labels after the history differ", dict(case=case, line=line, model=o, code=code))
             continue
         if kind == "closeflat":
             n = code.shape[0]
